@@ -76,9 +76,7 @@ Definition agree_oseries (m : res oseries) (o : option oseries) : bool :=
   end.
 Definition one_inst (r : res inst) : res panel := match r with Ok i => Ok [i] | Err => Err end.
 
-(* what the model says (documented function); the int interval segmenter has an open finding:
-   `check` accepts the documented tiling OR the unchanged code's faithful variant (the oracle
-   decides which one is a property failure), anything else is a disagreement. *)
+(* what the model says (the documented function) *)
 Definition model_says (c : case) : res panel :=
   match c with
   | CPad req fill pfit p _ => pad_apply (pad_fit req pfit) fill p
@@ -109,11 +107,7 @@ Definition impl_says (c : case) : option panel :=
 Definition check (c : case) : bool :=
   match c with
   | CRife feats ivs p o => agree_tagged (rife_apply feats ivs p) o
-  | CImpute m l o =>
-      agree_oseries (impute_res m l) o ||
-      match m with IDrift => agree_oseries (Ok (impute_drift_faithful l)) o | _ => false end
-  | CISegInt k pfit p o =>
-      agree (model_says c) o || agree (iseg_int_faithful k pfit p) o
+  | CImpute m l o => agree_oseries (impute_res m l) o
   | _ => agree (model_says c) (impl_says c)
   end.
 
